@@ -153,11 +153,11 @@ class RedfieldRelaxationTensor(RelaxationTensor):
             Km = self.Km
             Ld = self.Ld
             
-            Kd = numpy.zeros(Km.shape, dtype=numpy.float64)
+            Kd = numpy.zeros(Km.shape, dtype=numpy.complex128)
             Nm = Km.shape[0]
             ven = numpy.zeros(oper.data.shape, dtype=numpy.complex128)
             for mm in range(Nm):
-                Kd[mm, :, :] = numpy.transpose(Km[mm, :, :])
+                Kd[mm, :, :] = numpy.conj(numpy.transpose(Km[mm, :, :]))
             
                 ven += (
                 numpy.dot(Km[mm,:,:],numpy.dot(rho1, Ld[mm,:,:]))
@@ -202,6 +202,13 @@ class RedfieldRelaxationTensor(RelaxationTensor):
                 S1 = numpy.linalg.inv(SS)
             else:
                 S1 = inv
+
+            # the operators are transformed in place: real storage cannot
+            # hold them in a complex basis
+            if numpy.iscomplexobj(SS):
+                self._Lm = numpy.array(self._Lm, dtype=numpy.complex128)
+                self._Ld = numpy.array(self._Ld, dtype=numpy.complex128)
+                self._Km = numpy.array(self._Km, dtype=numpy.complex128)
 
             for m in range(self._Lm.shape[0]):
                 self._Lm[m,:,:] = numpy.dot(S1,numpy.dot(self._Lm[m,:,:], SS))  
@@ -486,7 +493,7 @@ class RedfieldRelaxationTensor(RelaxationTensor):
         #tt1 = time.time()
         for m in block_distributed_range(0,Nb): #range(Nb):
             
-            Kd = numpy.transpose(Km[m,:,:])
+            Kd = numpy.conj(numpy.transpose(Km[m,:,:]))
 #            KdLm = numpy.dot(Kd,Lm[m,:,:])
 #            LdKm = numpy.dot(Ld[m,:,:],Km[m,:,:])
 #            for a in range(Na):
